@@ -416,7 +416,7 @@ def describe(tier):
     return {
         'rule': 'funcs: every function table for the listed (n,m) in 6 representations (TruthTable from bools / strings, PyFunction from a '
         'list callable with and without output_size, PyFunction.from_positional, Circuit as mux tree); circuits: every circuit of '
-        'F(n,2,FULL) with outputs (last, first gate) as its own function; identity: callables returning their argument list; every '
+        'F(n,2,FULL) with outputs (last gate, first gate, first input) as its own function; identity: callables returning their argument list; every '
         'protocol query with every index argument, both inverse values, every non-empty output subset for find_negations; answers '
         'compared with definitions computed from the table and across representations. models: every {0,1,*} table x every completion '
         '(check, check_at, get_model_truth_table, define). wrappers: from_int_unary/binary_func widths<=3, both endiannesses, 5 '
@@ -459,7 +459,7 @@ def run_task(task, acc):
     if k == 'circuits':
         n = task['n']
         for gates in space.enum_gates(n, task['k'], space.FULL, space.prefix_from_task(task)):
-            outs = (n + len(gates) - 1, n)
+            outs = (n + len(gates) - 1, n, 0)  # last gate, first gate, first input (possibly without users)
             net = space.spec_net(n, gates, outs)
             ts = net.out_tables()
             c = space.build(n, gates, outs)
